@@ -29,7 +29,7 @@ type Env struct {
 
 func (e *Env) newPair() *Pair {
 	return &Pair{
-		impl:  newProc(e.self, []string{"worker"}, []string{"GOMEMLIMIT=2GiB"}),
+		impl:  newProc(e.self, []string{"worker"}, []string{"GOMEMLIMIT=2GiB", "VERIF_WORKER_SCRATCH=" + e.scratch}),
 		model: newProc(e.driver, nil, nil),
 	}
 }
